@@ -25,8 +25,29 @@ let ll_parse (s : string) : iphc_ll option =
     if s.[0] = 's' then Some (LlShort (bytes_of_hex h)) else Some (LlExtended (bytes_of_hex h))
 
 (* ---------- stream lowpan-wire ---------- *)
+let ext_parse_show (b : z list) : string =
+  match nhc_ext_new_checked b with
+  | Err _ -> "E" | Panic -> "PANIC"
+  | Ok () ->
+    (match nhc_ext_repr_parse b, nhc_ext_payload b with
+     | Panic, _ | _, Panic -> "PANIC"
+     | Err _, _ | _, Err _ -> "E"
+     | Ok r, Ok pl ->
+       Printf.sprintf "id=%s nh=%s len=%s blen=%s pl=%s" (sz r.ne_eid)
+         (match r.ne_next with None -> "c" | Some p -> sz p) (sz r.ne_length)
+         (sz (nhc_ext_buffer_len r)) (hex_of_bytes pl))
+
 let wire_op (t : string list) : string =
   match t with
+  | "ext_emit" :: _ ->
+      let r = { ne_eid = kvz t "id"; ne_next = (match kv t "nh" with "c" -> None | s -> Some (zs s));
+                ne_length = kvz t "len" } in
+      let n = nhc_ext_buffer_len r in
+      let buf = repeat_z (kvz t "fill") (iz n + int_of_string (kv t "extra")) in
+      (match nhc_ext_emit r buf with
+       | Ok b -> Printf.sprintf "%s %s | %s" (sz n) (hex_of_bytes b) (ext_parse_show b)
+       | Err _ -> "E" | Panic -> "PANIC")
+  | "ext_parse" :: _ -> ext_parse_show (bytes_of_hex (last t))
   | "frag_emit" :: _ ->
       let size = kvz t "size" and tag = kvz t "tag" and off = kvz t "off" in
       let r = if kv t "k" = "1" then SfFirst (size, tag) else SfNext (size, tag, off) in
